@@ -10,8 +10,13 @@ package sql
 import (
 	"encoding/json"
 	"fmt"
+	"os"
+	"os/exec"
 	"reflect"
+	"runtime"
+	"strconv"
 	"strings"
+	"sync"
 	"testing"
 	"unicode"
 	"unicode/utf8"
@@ -28,6 +33,9 @@ type c35Case struct {
 	// design, so the keyword-case clause (stated for valid queries) is not applied to
 	// it. The no-panic clause and the model comparison still are.
 	Odd bool `json:"odd,omitempty"`
+	// Cold-start case: a fresh process parses Stmts concurrently (seed of the statement generator)
+	Cold  uint64   `json:"cold_seed,omitempty"`
+	Stmts []string `json:"stmts,omitempty"`
 }
 
 type c35Obs struct {
@@ -697,8 +705,149 @@ func c35Stream(segs []c35Seg, r *vRand, visit func(text, stream string)) {
 	}
 }
 
+// ---------------------------------------------------------------- concurrent cold start
+// Parse runs on every client connection's goroutine (server.go handleConnection, proxy
+// handleConn). The Coq theorems are about Parse as a pure function of its argument; state
+// hidden in the package (lazily filled caches, shared buffers) is outside the model and is
+// covered here: a fresh process releases 4 x GOMAXPROCS goroutines from a barrier, each
+// parsing its first statements at the same moment. A Go runtime "fatal error: concurrent map
+// writes" cannot be recovered, so the process is re-executed as a child and watched.
+
+func c35ColdStatements(seed uint64, n int) []string {
+	r := vNewRand(seed)
+	var out []string
+	for len(out) < n {
+		b := &c35Builder{r: r.Fork(), wild: 0}
+		b.statement()
+		if b.odd {
+			continue
+		}
+		out = append(out, c35Join(b.segs, c35Recase(r)))
+	}
+	return out
+}
+
+const c35PerGoroutine = 3
+
+// TestVerifC35Child is the child process: it must not call Parse before the barrier opens.
+func TestVerifC35Child(t *testing.T) {
+	sd := os.Getenv("VERIF_C35_CHILD")
+	if sd == "" {
+		t.Skip("child of the cold-start stream only")
+	}
+	seed, _ := strconv.ParseUint(sd, 10, 64)
+	g := 4 * runtime.GOMAXPROCS(0)
+	rounds := 1
+	if os.Getenv("VERIF_C35_RACE") != "" {
+		rounds = 4
+	}
+	stmts := c35ColdStatements(seed, g*c35PerGoroutine)
+	start := make(chan struct{})
+	var wg sync.WaitGroup
+	for i := 0; i < g; i++ {
+		wg.Add(1)
+		go func(i int) {
+			defer wg.Done()
+			<-start
+			for k := 0; k < c35PerGoroutine*rounds; k++ {
+				func() {
+					defer func() { _ = recover() }() // panics are the sequential streams' business
+					_, _ = Parse(stmts[i*c35PerGoroutine+k%c35PerGoroutine])
+				}()
+			}
+		}(i)
+	}
+	close(start)
+	wg.Wait()
+}
+
+// c35ColdRun re-executes this test binary n times as a cold child; returns the first death.
+func c35ColdRun(seed uint64, n int, race bool) (died bool, childSeed uint64, out string) {
+	type res struct {
+		seed uint64
+		out  string
+		bad  bool
+	}
+	r := vNewRand(seed ^ 0xc01d)
+	seeds := make([]uint64, n)
+	for i := range seeds {
+		seeds[i] = r.U64()>>1 | 1
+	}
+	results := make([]res, n)
+	sem := make(chan struct{}, 3)
+	var wg sync.WaitGroup
+	for i := range seeds {
+		wg.Add(1)
+		sem <- struct{}{}
+		go func(i int) {
+			defer wg.Done()
+			defer func() { <-sem }()
+			cmd := exec.Command(os.Args[0], "-test.run", "^TestVerifC35Child$", "-test.count=1", "-test.timeout=120s")
+			cmd.Env = append(os.Environ(), "VERIF_C35_CHILD="+strconv.FormatUint(seeds[i], 10), "VERIF_REPLAY=")
+			if race {
+				cmd.Env = append(cmd.Env, "VERIF_C35_RACE=1")
+			}
+			b, err := cmd.CombinedOutput()
+			o := string(b)
+			results[i] = res{seeds[i], o, err != nil || strings.Contains(o, "DATA RACE") || strings.Contains(o, "fatal error")}
+		}(i)
+	}
+	wg.Wait()
+	for _, x := range results {
+		if x.bad {
+			o := x.out
+			if len(o) > 1800 {
+				o = o[:1800]
+			}
+			return true, x.seed, o
+		}
+	}
+	return false, 0, ""
+}
+
+func c35ColdCheck(rep *vReport, seed uint64, n int, race bool) {
+	rep.Hist(map[bool]string{false: "cold-start-children", true: "race-children"}[race])
+	rep.Evaluations += n
+	rep.Histogram[map[bool]string{false: "cold-start-children", true: "race-children"}[race]] += n - 1
+	if died, cseed, out := c35ColdRun(seed, n, race); died {
+		g := 4 * runtime.GOMAXPROCS(0)
+		stmts := c35ColdStatements(cseed, g*c35PerGoroutine)
+		if len(stmts) > 12 {
+			stmts = stmts[:12]
+		}
+		key := "parser-process-death-concurrent-parse"
+		if strings.Contains(out, "DATA RACE") && !strings.Contains(out, "fatal error") {
+			key = "parser-shared-state-data-race"
+		}
+		rep.Fail(key, key, fmt.Sprintf("a fresh process in which %d goroutines call Parse at the same time on ordinary statements (e.g. %q) did not survive / is not race free: %s", g, stmts[0], out),
+			c35Case{Cold: cseed, Stmts: stmts})
+	}
+}
+
+// TestVerifC35Race is run by the second harness entry (go test -race): the same cold-start
+// burst in race-instrumented children; mutable package-level state in internal/sql shows
+// as a DATA RACE report even when the crash does not trigger.
+func TestVerifC35Race(t *testing.T) {
+	rep := vNewReport("C35", "race-instrumented cold processes each releasing 4 x GOMAXPROCS goroutines that Parse generated valid statements at the same time")
+	n := vN(5, 30)
+	seed := vSeed()
+	if rc := vReplayCase(); rc != nil {
+		var cs c35Case
+		if json.Unmarshal(rc, &cs) == nil && cs.Cold != 0 {
+			seed, n = cs.Cold, 10
+		} else {
+			n = 1
+		}
+	}
+	c35ColdCheck(rep, seed, n, true)
+	rep.WriteAs("C35_race")
+	if len(rep.Failures) > 0 {
+		t.Logf("oracle failures: %s", strings.TrimSpace(rep.Failures[0].What))
+	}
+}
+
 func TestVerifC35(t *testing.T) {
-	rep := vNewReport("C35", "query texts given to the real sql.Parse under recover: structured statements (show/describe/select/explain with joins, filters, group/order/limit/last/tail/within/scan clauses) whose identifiers, white space and clause positions carry length-changing letters (U+023A, U+212A, U+0130, U+017F ...), multi-byte white space and invalid UTF-8; keyword soup; byte mutations; random bytes; each structured query also as a keyword-case variant; and from every structured statement its truncations and local damage: every prefix at a token / white-space boundary in three keyword cases with and without trailing ';' / white space, every byte prefix for a sample, every single token deleted / duplicated / swapped with its neighbour (all parsed under recover; two per statement and every panicking one also compared with the model). Non-trivial = the text reaches parseSelect/parseExplain (first token select/explain) or contains a non-ASCII byte; distinct = distinct text")
+	rep := vNewReport("C35", "query texts given to the real sql.Parse under recover: structured statements (show/describe/select/explain with joins, filters, group/order/limit/last/tail/within/scan clauses) whose identifiers, white space and clause positions carry length-changing letters (U+023A, U+212A, U+0130, U+017F ...), multi-byte white space and invalid UTF-8; keyword soup; byte mutations; random bytes; each structured query also as a keyword-case variant; and from every structured statement its truncations and local damage: every prefix at a token / white-space boundary in three keyword cases with and without trailing ';' / white space, every byte prefix for a sample, every single token deleted / duplicated / swapped with its neighbour (all parsed under recover; two per statement and every panicking one also compared with the model); plus the concurrent cold-start stream: fresh child processes in which 4 x GOMAXPROCS goroutines call Parse at the same moment on generated valid statements (the child must exit 0). Non-trivial = the text reaches parseSelect/parseExplain (first token select/explain) or contains a non-ASCII byte; distinct = distinct text")
 	var coq, jsons []string
 	runOne := func(cs c35Case, kind string) {
 		text, variant := string(cs.Q), string(cs.V)
@@ -747,8 +896,14 @@ func TestVerifC35(t *testing.T) {
 		if err := json.Unmarshal(rc, &cs); err != nil {
 			t.Fatalf("bad replay: %v", err)
 		}
-		runOne(cs, "replay")
+		if cs.Cold != 0 {
+			c35ColdCheck(rep, cs.Cold, 40, false)
+		} else {
+			runOne(cs, "replay")
+		}
 	} else {
+		// concurrent cold start first (cheap, and a crash there is the worst outcome)
+		c35ColdCheck(rep, vSeed(), vN(40, 300), false)
 		corpus := []string{
 			"select " + strings.Repeat("Ⱥ", 20) + " from t order by x", // design-round witness: slice bounds out of range [:68] with length 65
 			"select * from t group by " + strings.Repeat("Ⱥ", 12),
